@@ -231,38 +231,58 @@ func controllerOfCompleteRule(c *Ctx) {
 					contrib = e
 				}
 			}
-			includes := func(v ssa.Value) bool {
-				for _, pv := range p.possibleValues(v) {
-					call, _ := asCall(pv)
-					if call == nil || !isCallTo(call.Common(), "builtin:append") || len(call.Common().Args) != 2 {
-						return false
-					}
-					if contrib == nil || stripConv(call.Common().Args[1]) != contrib {
-						return false
-					}
+			// Every path from the call that leaves the iteration other than through the back edge —
+			// a return that reports a list, or a break — must first append this iteration's
+			// contribution to the accumulator.
+			isAppend := func(in ssa.Instruction) bool {
+				call, ok := in.(*ssa.Call)
+				if !ok || !isCallTo(call.Common(), "builtin:append") || len(call.Common().Args) != 2 {
+					return false
 				}
-				return true
+				return contrib != nil && stripConv(call.Common().Args[1]) == contrib
 			}
-			for _, rc := range p.returnCases(fn) {
-				if !l.Body[rc.Ret.Block()] && !(rc.Pred != nil && l.Body[rc.Pred]) {
-					// return outside the loop: reached only after complete iterations
-					if !returnsFromIteration(rc.Ret, l) {
-						continue
+			o := c.Ob(fn, "controllerOf-complete-on-early-exit", k, c.rule.Statement)
+			var bad []string
+			seen := map[*ssa.BasicBlock]bool{}
+			var visit func(b *ssa.BasicBlock, from int)
+			visit = func(b *ssa.BasicBlock, from int) {
+				for i := from; i < len(b.Instrs); i++ {
+					in := b.Instrs[i]
+					if isAppend(in) {
+						return // satisfied on this path
+					}
+					if r, ok := in.(*ssa.Return); ok {
+						if len(r.Results) > 0 {
+							nilList := true
+							for _, pv := range p.possibleValues(r.Results[0]) {
+								if !isNilConst(stripConv(pv)) {
+									nilList = false
+								}
+							}
+							if !nilList {
+								bad = append(bad, "return at "+p.IPos(r))
+							}
+						}
+						return
 					}
 				}
-				first := rc.Results[0]
-				if isNilConst(stripConv(first)) {
-					continue // error / nothing reported
+				for _, s := range b.Succs {
+					if s == l.Head {
+						continue // next iteration
+					}
+					// leaving the loop from inside an iteration (break / return): keep following the
+					// path; what matters is the list reported by the return it reaches
+					if !seen[s] {
+						seen[s] = true
+						visit(s, 0)
+					}
 				}
-				if !k.Block().Dominates(rc.Ret.Block()) {
-					continue
-				}
-				o := c.Ob(fn, "controllerOf-return-in-iteration", rc.Ret, c.rule.Statement)
-				if includes(first) {
-					o.OK("returns append(acc, <this phase's controllerOf>...)")
-				} else {
-					o.Fail("the list returned from inside the phase loop (%s) does not include the objects this iteration's phase reported as controlled: status.controllerOf of a revision whose probe fails would omit the failing phase, and the ObjectDeployment could archive it while it still controls objects the next revision contains", p.describe(first))
-				}
+			}
+			visit(k.Block(), instrIndex(k)+1)
+			if len(bad) == 0 {
+				o.OK("every early exit of an iteration passes append(acc, <this phase's controllerOf>...)")
+			} else {
+				o.Fail("the iteration can be left (%s) with a reported list that does not include the objects this phase reported as controlled: status.controllerOf of a revision whose probe fails would omit the failing phase, and the ObjectDeployment could archive it while it still controls objects the next revision contains", strings.Join(dedupe(bad), ", "))
 			}
 		}
 	}
@@ -644,4 +664,13 @@ func sliceLiteralLen(v ssa.Value) (int, bool) {
 		return 0, false
 	}
 	return int(arr.Len()), true
+}
+
+func lastPos(b *ssa.BasicBlock) token.Pos {
+	for i := len(b.Instrs) - 1; i >= 0; i-- {
+		if p := b.Instrs[i].Pos(); p.IsValid() {
+			return p
+		}
+	}
+	return token.NoPos
 }
